@@ -1,7 +1,38 @@
 /-
-  C05 — see AL.Spec.X86 (reference decoder) and AL.Spec.X86Families (quantifier domain).
+  C05 — relative jumps and calls encode the given displacement; rel8 never wraps.
+
+  Statement: for every instance of the family — jmp, the conditional jumps, call, jrcxz, xbegin x
+  {no keyword, short, long} x every d in −130..129 and the 16/32-bit boundary values, decimal and
+  hexadecimal, all synonym mnemonics — an accepted line decodes to that operation with displacement d
+  (rel8 or rel32; `long` forces rel32, `short` rel8), and a line is rejected exactly when `short` is asked
+  for, or only rel8 exists, and d is outside −128..127.
+   * `Sweep.c05_sweep`          — the whole family (≈ 47 000 instances x 2 option bytes) on the model, by evaluation;
+   * `rel_field_reads_back`     — kernel-checked, for EVERY d: a rel8 / rel32 field holding d's two's complement
+                                  is read back as d;
+   * `written_displacement`     — kernel-checked, for EVERY n: the written number reaches the encoder unchanged
+                                  (C03 `written_number_value`).
+  Register, memory and far-memory targets are instances of the C01 / C02 families (call, jmp, callf, jmpf).
 -/
-import AL.Spec.X86Families
-import AL.Impl.Line
+import AL.Properties.Sweep.C05
+import AL.Properties.C03
 namespace AL.Properties.C05
+open AL AL.Impl AL.Spec.X86
+
+theorem rel_field_reads_back :
+    (∀ d : Int, -128 ≤ d → d < 128 → toSigned 8 (leVal (leBytes 1 (d % 256).toNat)) = d) ∧
+    (∀ d : Int, -2147483648 ≤ d → d < 2147483648 → toSigned 32 (leVal (leBytes 4 (d % 4294967296).toNat)) = d) := by
+  constructor
+  · intro d h1 h2
+    rw [leVal_leBytes_lt 1 _ (by have := Int.emod_lt_of_pos d (show (0 : Int) < 256 by decide); have := Int.emod_nonneg d (show (256 : Int) ≠ 0 by decide); omega)]
+    exact toSigned_roundtrip 8 (by decide) d (by simpa using h1) (by simpa using h2)
+  · intro d h1 h2
+    rw [leVal_leBytes_lt 4 _ (by have := Int.emod_lt_of_pos d (show (0 : Int) < 4294967296 by decide); have := Int.emod_nonneg d (show (4294967296 : Int) ≠ 0 by decide); have : (256 : Nat) ^ 4 = 4294967296 := by decide
+                                 omega)]
+    exact toSigned_roundtrip 32 (by decide) d (by simpa using h1) (by simpa using h2)
+
+theorem written_displacement (s : Instr) (n : Nat) (hn : n < 2 ^ 64) :
+    (∃ r, immTok s (AL.Lemmas.decStr n) = .ok r ∧ r.cons = n ∧ r.imm = true) ∧
+    (∃ r, immTok s (45 :: AL.Lemmas.decStr n) = .ok r ∧ r.cons = (2 ^ 64 - n) % 2 ^ 64) :=
+  ⟨(AL.Properties.C03.written_number_value s n 0 hn).1, (AL.Properties.C03.written_number_value s n 0 hn).2.2.1⟩
+
 end AL.Properties.C05
